@@ -13,8 +13,8 @@ from harness import leaves as lv
 from harness.common import fhex, fparse
 
 PROPERTY = "C02"
-GROUPS = ["leaves", "bij", "autoreg"]
-EXTRA_PROPS = ["Props/X01_bij.v", "Props/X01_autoreg.v"]  # inverse / log-det laws for every combinator tree (Model/Bij.v)
+GROUPS = ["leaves", "bij", "autoreg", "bnafld"]
+EXTRA_PROPS = ["Props/X01_bij.v", "Props/X01_autoreg.v", "Props/X02_bnaf.v"]  # inverse / log-det laws for every combinator tree (Model/Bij.v)
 MANIFEST = {
     "design_ref": "DESIGN.md 4.2",
     "technique": "Coq/Coquelicot proofs (is_derive) that each leaf's reported log-det is ln|f'(x)| of the map the model computes, inverse law, sums over chains/lifts, triangular determinant + executed correspondence + autodiff Jacobian as search oracle",
@@ -164,6 +164,9 @@ def run(ctx):
     flows_oracle(ctx)
     from harness import autoreg
     autoreg.run_units(ctx, theorems=False)  # real MaskedAutoregressive / Coupling layers vs Model/AutoregNet.v (log-dets, autodiff oracle)
+    from harness import bnafld
+
+    bnafld.run_units(ctx, theorems=False)  # BlockAutoregressiveNetwork.transform_and_log_det (value + reported log-det) vs Model/BnafLd.v
     ctx.assumptions += ["autodiff (jax.jacobian in float64) is the reference of the search oracle", "float saturation excluded (non-finite outputs skipped)"]
 
 
@@ -254,6 +257,10 @@ def flows_oracle(ctx):
 
 def replay(ctx, rep):
     c = rep["case"]
+    if str(c.get("kind", "")).startswith("bnafld"):
+        from harness import bnafld
+
+        return bnafld.replay_case(ctx, rep)
     if "spec" not in c:
         print("flow-level replay: re-run ./check C02 (seeded)")
         return False
